@@ -490,3 +490,56 @@ def rule_pool_bits(ctx):
 
 
 RULES.append(("C04.q", "pool manager bit set: which bit is set, cleared, tested (operand level)", rule_pool_bits))
+
+
+def rule_task_handover(ctx):
+    """schedule_task (multi-threaded): no Runnable is lost when the fast slot and the local queue overflow. The task displaced from the
+    fast slot is pushed to the local queue; if that is full, exactly one bucket's worth of tasks is drained into a Bucket that goes
+    to the injector and the displaced task is pushed again (or, failing the drain, inserted into the injector itself)."""
+    P = ctx.prog
+    bs = [b for b in P.all_bodies() if b.name.startswith("executor::mt_executor::schedule_task") and any(True for _ in b.calls(r"st3::fifo::Worker::drain$"))]
+    if len(bs) != 1:
+        return ctx.missing("the body of mt_executor::schedule_task that drains the local queue")
+    b = bs[0]
+    drains = list(b.calls(r"st3::fifo::Worker::drain$"))
+    ok = len(drains) == 1
+    sites = list(drains)
+    if ok:
+        cnt = [P.body(norm(g)) for g in (drains[0].node.get("gdefs") or [])]
+        cnt = [c for c in cnt if c is not None]
+        ok = len(cnt) == 1
+        if ok:
+            rets = K.ret_assigns(cnt[0])
+            ok = len(rets) == 1 and rets[0].is_term and (rets[0].callee or "").endswith("injector::Bucket::capacity")
+            sites += rets
+    ctx.ob("handover|drain-count-is-bucket-capacity", ok,
+           "when the local queue is full, exactly Bucket::capacity() tasks are drained (a Bucket built from the drain keeps only that many; the rest "
+           "would be dropped, which cancels them)", sites)
+    pb = list(b.calls(r"injector::Injector::push_bucket$"))
+    fi = [s for s in b.calls(r"from_iter$") if "Bucket" in ((s.node.get("resolved_n") or "") + (s.node.get("dty") or "") + (s.callee or ""))]
+    ok = len(pb) == 1 and len(fi) == 1 and drains and b.origins(pb[0].args()[1], pb[0]) == frozenset([("call", fi[0].b, fi[0].callee)])
+    if ok:
+        fo = b.origins(fi[0].args()[0], fi[0])
+        ok = bool(fo) and all(origin_proj_names(o)[0] == ("call", drains[0].b, drains[0].callee) for o in fo)
+    ctx.ob("handover|drained-tasks-go-to-the-injector", ok, "the bucket pushed to the injector is built from the drained tasks", pb + fi)
+    rep = list(b.calls(r"^std::cell::Cell::replace$"))
+    pushes = list(b.calls(r"st3::fifo::Worker::push$"))
+    ins = list(b.calls(r"injector::Injector::insert_task$"))
+    ok = len(rep) == 1 and len(pushes) == 2 and len(ins) == 1
+    if ok:
+        first = [p for p in pushes if all(origin_proj_names(o)[0] == ("call", rep[0].b, rep[0].callee) for o in b.origins(p.args()[1], p))]
+        ok = len(first) == 1
+        if ok:
+            f = first[0]
+            second = [p for p in pushes if p.key() != f.key()][0]
+            err_of_first = lambda os_: bool(os_) and all(origin_proj_names(o)[0] == ("call", f.b, f.callee) and origin_proj_names(o)[1][:1] == [("d", "Err")] for o in os_)
+            ok = err_of_first(b.origins(second.args()[1], second)) and err_of_first(b.origins(ins[0].args()[1], ins[0]))
+            # one of the two is reached on every path once the first push failed
+            ok = ok and not b.path_exists_to_return(f, avoiding=[second, ins[0]]) or (ok and all(
+                any(c.kind == "variant" and "Err" in c.data[1] for c in b.conditions(x)) for x in (second, ins[0])))
+    ctx.ob("handover|displaced-task-requeued", ok,
+           "the task displaced from the fast slot is pushed to the local queue; the task handed back by a failed push is pushed again after the "
+           "drain or inserted into the injector", rep + pushes + ins)
+
+
+RULES.append(("C04.r", "schedule_task hand-over conserves tasks (operand level)", rule_task_handover))
